@@ -542,6 +542,15 @@ class Interp:
         raise Unsupported('binary operator %s' % op)
 
     def unknown_binop(self, op, a, b):
+        """operands that are not both numbers / strings / tuples / lists: for two non-objects Python raises
+        TypeError; anything involving an instance would need its __op__ contract"""
+        if self.pure:
+            raise Unsupported('binary %s on operands outside int/float/str/tuple/list' % op)
+        st = self.st
+        prim_a = z3.Not(Val.is_o(a))
+        prim_b = z3.Not(Val.is_o(b))
+        if st.branch(z3.And(prim_a, prim_b)):
+            self.raise_(TypeError, 'unsupported operand type(s) for %s' % op)
         raise Unsupported('binary %s on operands outside int/float/str/tuple/list' % op)
 
     # attributes ---------------------------------------------------------------------
@@ -1716,6 +1725,10 @@ class Interp:
         b = z3.If(n < 0, z3.If(n + ln < 0, z3.IntVal(0), n + ln), z3.If(n > ln, ln, n))
         return SeqV(z3.Extract(sq.seq, z3.IntVal(0), z3.If(b < 0, z3.IntVal(0), b)))
 
+    def spec_strip(self, node):
+        v = self.to_val(self.ev(node.args[0]))
+        return Val.s(STR_STRIP(Val.sv(v)))
+
     def spec_lower(self, node):
         v = self.to_val(self.ev(node.args[0]))
         return Val.s(STR_LOWER(Val.sv(v)))
@@ -2030,8 +2043,9 @@ class Interp:
                     classes = [t.obj]
                 elif isinstance(t, PyConst) and isinstance(t.obj, tuple):
                     classes = list(t.obj)
-                elif V.is_val(t) and V.tagname(t) == 't':
-                    raise Unsupported('symbolic handler tuple')
+                elif V.is_val(t):
+                    from .pybuiltins import _class_list
+                    classes = _class_list(self, t)
                 else:
                     raise Unsupported('handler type')
                 match = z3.Or(*[V.subclass(cls, z3.IntVal(V.cid_of(c))) for c in classes])
